@@ -16,7 +16,7 @@ from checks import c02
 
 PROPERTY = 'C07'
 RULE = ('same catalogue as C02 restricted to the deterministic-gain optimisers (community_louvain, modularity_louvain_und/'
-        '_dir/_und_sign, modularity_finetune_und/_dir/_und_sign), ALL visiting orders at every sweep; second stage: each '
+        '_dir/_und_sign, modularity_finetune_und/_dir/_und_sign), plus modularity_finetune_und_sign on three 4-node networks dominated by negative weights from every one of the 15 start partitions under each of the five objective types; ALL visiting orders at every sweep; second stage: each '
         'distinct first-stage output fed back as ci (routines that accept ci) over all orders; non-trivial = configuration '
         'with >= 2 distinct reachable outcomes')
 ASSUMPTIONS = ['reference modularity from the definition (bctmc/louvain.py); tolerance 1e-10 as in the property',
@@ -28,8 +28,21 @@ TOL = 1e-10
 THOROUGH = [False]
 
 
+# signed 4-node networks dominated by negative weights: under these a start partition can already be good for one
+# objective and poor for another, so "not worse than the start" separates the five objective types
+HEAVY_NEG = (('hneg_a', [[0, -2, -2, -2], [-2, 0, -2, 1], [-2, -2, 0, 1], [-2, 1, 1, 0]]),
+             ('hneg_b', [[0, 1, -2, -1], [1, 0, -1, -2], [-2, -1, 0, 1], [-1, -2, 1, 0]]),
+             ('hneg_c', [[0, -2, 1, 0], [-2, 0, -2, 1], [1, -2, 0, -2], [0, 1, -2, 0]]))
+
+
 def catalogue(thorough):
-    return [c for c in c02.catalogue(thorough) if c['fn'] in OPTIMISERS]
+    cfgs = [c for c in c02.catalogue(thorough) if c['fn'] in OPTIMISERS]
+    for tag, W in HEAVY_NEG:
+        for qt in c02.QTYPES:
+            for ci in ss.set_partitions(4):     # every start partition x every objective type
+                cfgs.append({'fn': 'modularity_finetune_und_sign', 'tag': tag, 'W': np.array(W, dtype=float),
+                             'kw': {'gamma': 1, 'qtype': qt, 'ci': [int(x) for x in ci]}})
+    return cfgs
 
 
 def plan(ctx):
